@@ -247,3 +247,102 @@ def generated_cases(rng, tier, n):
             out.append(mk(name, text, use_arch, isa, fixed, rng.random() < 0.3, lines, marked,
                           lcd_timeout=((0 if c == 2 else 2) if len(body) > 60 else 10), kind=kind))
     return out
+
+
+# ------------------------------------------------------------------------------------------- critical-path ties
+# Kernels in which the longest chain of dependent instructions takes EXACTLY as long as one independent instruction: whichever
+# the analysis reports as critical path, the text report and the YAML must tell the same story (CP cells vs LatencyCP of EVERY
+# line, totals).  The vocabulary below only proposes candidates; latencies are read off the model through the implementation's
+# own semantics objects (steering only, like `survey`).
+CP_VOC = {
+    "x86": dict(
+        chain=dict(g=["%rax", "%rbx", "%rcx", "%rdx", "%rsi", "%rdi"], v=["%ymm0", "%ymm1", "%ymm2", "%ymm3", "%ymm4", "%ymm5"]),
+        free=dict(g=["%r8", "%r9", "%r10", "%r11"], v=["%ymm8", "%ymm9", "%ymm10", "%ymm11"]),
+        ops=dict(g=["addq $8, {d}", "subq $1, {d}", "imulq {s}, {d}", "leaq 8({s}), {d}", "addq {s}, {d}", "shlq $3, {d}"],
+                 v=["vaddpd {s}, {c}, {d}", "vmulpd {s}, {c}, {d}", "vsubpd {s}, {c}, {d}", "vfmadd231pd {s}, {c}, {d}",
+                    "vdivpd {s}, {c}, {d}", "vsqrtpd {s}, {d}"]),
+        tail=["cmpq %r12, %r13", "jne .L1"]),
+    "aarch64": dict(
+        chain=dict(g=["x1", "x2", "x3", "x4", "x5", "x6"], v=["d1", "d2", "d3", "d4", "d5", "d6"]),
+        free=dict(g=["x9", "x10", "x11", "x12"], v=["d9", "d10", "d11", "d12"]),
+        ops=dict(g=["add {d}, {s}, #8", "sub {d}, {s}, #1", "mul {d}, {s}, {c}", "lsl {d}, {s}, #2", "madd {d}, {s}, {c}, {c}"],
+                 v=["fadd {d}, {s}, {c}", "fmul {d}, {s}, {c}", "fsub {d}, {s}, {c}", "fmadd {d}, {s}, {c}, {c}", "fdiv {d}, {s}, {c}",
+                    "fsqrt {d}, {s}"]),
+        tail=["cmp x13, x14", "b.ne .L1"]),
+}
+_cp_lat = {}
+
+
+def cp_latencies(arch, isa):
+    """{(class, op template): latency} for the vocabulary under one model (known throughput and latency only)"""
+    if arch in _cp_lat:
+        return _cp_lat[arch]
+    from osaca.parser import get_parser
+    mm, sem = models.load(arch)
+    p = get_parser(isa)
+    voc = CP_VOC[isa]
+    out = {}
+    for cls, ops in voc["ops"].items():
+        r = voc["free"][cls]
+        for op in ops:
+            try:
+                form = p.parse_line(op.format(s=r[0], d=r[1], c=r[2]), 1)
+                sem.assign_src_dst(form)
+                sem.assign_tp_lt(form)
+                lat = float(form.latency)
+                if "tp_unknown" in form.flags or "lt_unknown" in form.flags or not lat > 0 or lat != int(lat):
+                    continue
+                out[(cls, op)] = lat
+            except Exception:
+                continue
+    _cp_lat[arch] = out
+    return out
+
+
+def cp_tie_bodies(rng, arch, isa, limit):
+    """-> [(order, body lines)]: a dependent chain of 2..3 instructions whose latencies add up to the latency of one independent
+    instruction, which follows ('chain-first') or precedes ('single-first') the chain"""
+    lat = cp_latencies(arch, isa)
+    voc = CP_VOC[isa]
+    cands = []
+    keys = sorted(lat)
+    for cls in ("g", "v"):
+        ops = [k for k in keys if k[0] == cls]
+        chains = [[a, b] for a in ops for b in ops] + [[a, b, c] for a in ops for b in ops for c in ops]
+        for ch in chains:
+            total = sum(lat[k] for k in ch)
+            for single in keys:
+                if lat[single] == total:
+                    cands.append((ch, single))
+    rng.shuffle(cands)
+    out = []
+    for ch, single in cands[:limit]:
+        regs = list(voc["chain"][ch[0][0]])
+        cur = regs.pop(0)
+        lines = []
+        for k, (_, op) in enumerate(ch):
+            if "{s}" in op:
+                d = regs.pop(0)
+                lines.append(op.format(s=cur, d=d, c=voc["free"][ch[0][0]][3]))
+                cur = d
+            else:
+                lines.append(op.format(d=cur))
+        f = voc["free"][single[0]]
+        one = single[1].format(s=f[0], d=f[1], c=f[2])
+        for order in ("chain-first", "single-first"):
+            body = [".L1:"] + (lines + [one] if order == "chain-first" else [one] + lines) + list(voc["tail"])
+            out.append((order, body))
+    return out
+
+
+def cp_tie_cases(rng, tier):
+    out = []
+    for isa in ("x86", "aarch64"):
+        archs = archs_for(isa, tier)
+        if isa == "x86" and "icx" in models.nonempty_archs() and "icx" not in archs:
+            archs = archs + ["icx"]
+        for arch in archs:
+            for j, (order, body) in enumerate(cp_tie_bodies(rng, arch, isa, 2 if tier == "quick" else 8)):
+                out.append(mk("gen:cp-tie/%s/%s/%d" % (order, arch, j), "\n".join(body) + "\n", arch, isa, rng.random() < 0.5, True,
+                              kind="cp-tie"))
+    return out
